@@ -17,7 +17,7 @@ void vp_dom_truncate(QDomElement *el, unsigned n);
 bool vp_c02_writer_has_root(void *w);
 void vp_c02_init();   // call first in every entry
 }
-#define C02_L 36   // longest name/namespace of the vocabularies (urn:ietf:params:xml:ns:xmpp-stanzas = 35)
+#define C02_L 40   // longest name/namespace of the vocabularies (http://jabber.org/features/iq-register = 38)
 #define C02_A 12   // longest attribute name / enum value
 // vocabulary of one parser: the names it compares against + foreign ones; row 0 of `nss` must be "" (= no own declaration: inherit)
 struct Vocab {
